@@ -20,14 +20,24 @@ type c02Sharer struct {
 }
 
 // VerifC02_SharedGpuMemory: a node with G GPUs of T MiB each holds 0..2 GPU-memory sharers (each
-// running or terminating, on group g0 or g1, request symbolic) and one whole-GPU pod (0..G GPUs);
+// running or terminating, on group g0 or g1, request symbolic) and one whole-GPU pod (0..G GPUs, running or nominated onto idle GPUs earlier in the cycle);
 // a new GPU-memory request (symbolic MiB, 1 or 2 devices) is placed by the real FittingNode +
 // allocateTaskToNode (gpu_sharing.AllocateFractionalGPUTaskToNode, FittingGPUs, NodeInfo shared-GPU
 // accounting) and committed.
-// BOUND: G in {1,2,3}; device memory T = 1000 MiB (quick) / {1000, 100, 16000} (thorough); 0..2 existing sharers over <= 2 groups with SYMBOLIC memory requests in [1, 2^20); one whole-GPU pod; the new request's memory from the boundary menu {1, 0.3T, T/2, T/2+1, T, T+1, 2T} with 1..2 devices; the new pod's cpu request regular (100m) or below the best-effort threshold (0)
+// BOUND: G in {1,2,3}; device memory T = 1000 MiB (quick) / {1000, 100, 16000} (thorough); 0..2 existing sharers over <= 2 groups with SYMBOLIC memory requests in [1, 2^20); one whole-GPU pod; the new request's memory from the boundary menu {1, 0.3T, T/2, T/2+1, T, T+1, 2T} with 1..2 devices; GPU order: none, or (for 2-device requests and with a nominated whole-GPU pod) whole GPUs first; the new pod's cpu request regular (100m) or below the best-effort threshold (0)
 // ASSUME: pre-state reachable: per group the occupying sharers fit the device, groups + whole GPUs <= G; the existing sharers' derived fractional portions (dead for this property: only the queue charge uses them) are havoc'ed
 func VerifC02_SharedGpuMemory() {
-	c02SharedGpuMemory("C02")
+	c02SharedGpuMemory("C02", false)
+}
+
+// VerifC02_MultiDeviceWithTerminatingSharer: the same placement for a request of two devices on a
+// node where group g0 holds a running AND a terminating sharer and group g1 a running one (memories
+// symbolic): a request that fits g0 only once the terminating sharer is gone must be nominated, also
+// when the other device it gets has idle room.
+// BOUND: G in {2,3}; sharers: g0 running + g0 terminating + g1 running with symbolic memory; device memory 1000 MiB; new request for 2 devices from the boundary menu
+// ASSUME: as VerifC02_SharedGpuMemory
+func VerifC02_MultiDeviceWithTerminatingSharer() {
+	c02SharedGpuMemory("C02", true)
 }
 
 // VerifC01_SharedGpuDevices: the same placement seen from the node: devices opened for sharing plus
@@ -36,13 +46,16 @@ func VerifC02_SharedGpuMemory() {
 // BOUND: as VerifC02_SharedGpuMemory
 // ASSUME: as VerifC02_SharedGpuMemory
 func VerifC01_SharedGpuDevices() {
-	c02SharedGpuMemory("C01")
+	c02SharedGpuMemory("C01", false)
 }
 
-func c02SharedGpuMemory(prop string) {
+func c02SharedGpuMemory(prop string, mixed bool) {
 	vr.OpaqueNonlinear(true)
 	vm := resource_info.NewResourceVectorMap()
 	G := vr.Choose("gpus", 3) + 1
+	if mixed {
+		G = vr.Choose("gpus", 2) + 2
+	}
 	// device memory from a concrete menu, so that the new request's portion (ceil(m/T*100)/100, the
 	// only float that steers control flow, via isValidGpuPortion) is computed with real IEEE arithmetic
 	tMenu := []int64{1000, 100, 16000}
@@ -59,20 +72,37 @@ func c02SharedGpuMemory(prop string) {
 		return t
 	}
 	// whole-GPU pod
+	wholeNominated := false
 	whole := vr.Choose("wholeGpus", G+1)
+	if mixed {
+		whole = 0
+	}
 	if whole > 0 {
-		t := add("w0", vs.GpuSpec{Kind: 0, Whole: float64(whole)}, pod_status.Running, nil)
+		// running, or nominated earlier in the cycle onto idle GPUs (which are then reserved for it)
+		wst := []pod_status.PodStatus{pod_status.Running, pod_status.Pipelined}[vr.Choose("wholeGpuPodStatus", 2)]
+		wholeNominated = wst == pod_status.Pipelined
+		t := add("w0", vs.GpuSpec{Kind: 0, Whole: float64(whole)}, wst, nil)
 		if node.AddTask(t) != nil {
 			vr.Stop()
 		}
 	}
-	nEx := vr.Choose("sharers", 3)
+	nEx := 3
+	if !mixed {
+		nEx = vr.Choose("sharers", 3)
+	}
 	for i := 0; i < nEx; i++ {
 		name := vs.Name("s", i)
 		m := vr.AnyInt64(name+".mem", 20)
 		vr.Assume(m >= 1)
-		st := []pod_status.PodStatus{pod_status.Running, pod_status.Releasing}[vr.Choose(name+".status", 2)]
-		grp := []string{vs.Name("g", vr.Choose(name+".group", 2))}
+		var st pod_status.PodStatus
+		var grp []string
+		if mixed {
+			st = []pod_status.PodStatus{pod_status.Running, pod_status.Releasing, pod_status.Running}[i]
+			grp = []string{[]string{"g0", "g0", "g1"}[i]}
+		} else {
+			st = []pod_status.PodStatus{pod_status.Running, pod_status.Releasing}[vr.Choose(name+".status", 2)]
+			grp = []string{vs.Name("g", vr.Choose(name+".group", 2))}
+		}
 		t := add(name, vs.GpuSpec{Kind: 2, MemMiB: m, Devices: 1}, st, grp)
 		if node.AddTask(t) != nil {
 			vr.Stop()
@@ -106,9 +136,37 @@ func c02SharedGpuMemory(prop string) {
 		}
 		return len(seen)
 	}
+	// groups whose every occupying sharer is terminating: their device is about to be free
+	freeing := func() int {
+		state := map[string]int{} // 1: only terminating sharers so far, 2: has a non-terminating sharer
+		for _, s := range sharers {
+			if s.t.Status == pod_status.Pipelined || s.t.NodeName != "n1" {
+				continue
+			}
+			for _, g := range s.groups {
+				if s.t.Status != pod_status.Releasing {
+					state[g] = 2
+				} else if state[g] == 0 {
+					state[g] = 1
+				}
+			}
+		}
+		n := 0
+		for _, v := range state {
+			if v == 1 {
+				n++
+			}
+		}
+		return n
+	}
 	vr.Assume(occ("g0") <= T)
 	vr.Assume(occ("g1") <= T)
-	if groupsUsed()+whole > G {
+	if wholeNominated {
+		// nominated whole GPUs are not in use yet; they are reserved on idle or about-to-be-free devices
+		if groupsUsed()-freeing()+whole > G {
+			vr.Stop()
+		}
+	} else if groupsUsed()+whole > G {
 		vr.Stop()
 	}
 
@@ -116,6 +174,9 @@ func c02SharedGpuMemory(prop string) {
 	mMenu := []int64{1, T * 3 / 10, T / 2, T/2 + 1, T, T + 1, 2 * T}
 	m := mMenu[vr.Choose("new.mem", len(mMenu))]
 	devices := int64(vr.Choose("devices", 2) + 1)
+	if mixed {
+		devices = 2
+	}
 	// cpu below the scheduler's best-effort threshold (10 milli-cpu) or a regular cpu request
 	newCpu := []float64{100, 0}[vr.Choose("new.cpu", 2)]
 	nt := vs.NewTask("new", "job-new", "", newCpu, 1000, vs.GpuSpec{Kind: 2, MemMiB: m, Devices: devices}, pod_status.Pending, "", vm)
@@ -123,6 +184,16 @@ func c02SharedGpuMemory(prop string) {
 	jobs[nj.UID] = nj
 	ch := &c01Cache{}
 	ssn := &framework.Session{ClusterInfo: &api.ClusterInfo{Nodes: map[string]*node_info.NodeInfo{"n1": node}, PodGroupInfos: jobs}, Cache: ch}
+	// GPU order: none registered, or a whole-GPU-first order (what gpuspread yields for a node with
+	// used shared groups) - the scoring arithmetic of the order plugins itself is not executed
+	if (devices == 2 || wholeNominated) && vr.Choose("gpuOrder", 2) == 1 {
+		ssn.AddGPUOrderFn(func(_ *pod_info.PodInfo, _ *node_info.NodeInfo, gpuIdx string) (float64, error) {
+			if gpuIdx == pod_info.WholeGpuIndicator {
+				return 1, nil
+			}
+			return 0, nil
+		})
+	}
 	stmt := ssn.Statement()
 	if !ssn.FittingNode(nt, node, true) {
 		vr.Observe("fits", false)
@@ -147,7 +218,13 @@ func c02SharedGpuMemory(prop string) {
 		for _, g := range nt.GPUGroups {
 			vr.Assert(occ(g) <= T, prop+".group-memory-not-oversubscribed")
 		}
-		vr.Assert(groupsUsed()+whole <= G, prop+".shared-plus-whole-devices-within-gpu-count")
+		if wholeNominated {
+			vr.Assert(groupsUsed() <= G, prop+".shared-plus-whole-devices-within-gpu-count")
+			// a bind never takes a device that an earlier nomination of the cycle relies on
+			vr.Assert(groupsUsed()-freeing()+whole <= G, prop+".bound-shared-devices-leave-room-for-nominated-whole-gpus")
+		} else {
+			vr.Assert(groupsUsed()+whole <= G, prop+".shared-plus-whole-devices-within-gpu-count")
+		}
 	} else {
 		vr.Assert(nt.Status == pod_status.Pipelined, prop+".placed-is-allocated-or-pipelined")
 	}
